@@ -49,6 +49,7 @@ def tdesc(t):
     if t is None: return ["TNoValue"]
     if t is Options.DEFER_ANALYSIS_OF_ARGUMENTS: return ["TDefer"]
     if t is Options.normalise_encoding_name: return ["TEncoding"]
+    if t is type(None): return ["TDefer"]    # since f805503ef: same "cannot be set from a string" error as DEFER
     if isinstance(t, type): return ["TCallCrash", t.__name__]
     if callable(t) and getattr(t, "__code__", None) is not None and t.__code__.co_freevars == ("args", "map") \
             and t.__qualname__ == "one_of.<locals>.validate":
